@@ -441,6 +441,45 @@ func TestC19EndToEnd(t *testing.T) {
 		}
 		hw.Close()
 	}
+	// A node that refuses stores for a while (busy, temporary failure, out of
+	// memory): a set that is answered with an error is the client's problem, but
+	// a set that is acknowledged must be found by every other connection -- the
+	// node that holds a key does not depend on what some node answered.
+	for bi, status := range []uint16{0x85, 0x86, 0x82} {
+		for _, f := range fakes {
+			f.Reset()
+		}
+		busy := fakes[bi%len(fakes)]
+		busy.Arm(&fakemc.Fault{Match: func(r *fakemc.Req) bool { return r.Opcode == fakemc.OpSet }, Kind: fakemc.FaultStatus, Status: status, Repeat: true})
+		hw, err := cluster.NewHandler(addrs, "w")
+		if err != nil {
+			t.Fatal(err)
+		}
+		var acked []string
+		refused := 0
+		for _, k := range keys {
+			if err := hw.Set(common.SetRequest{Key: []byte(k), Data: []byte("v-" + k), Flags: 7}); err == nil {
+				acked = append(acked, k)
+			} else {
+				refused++
+			}
+		}
+		hw.Close()
+		busy.Disarm()
+		hr, err := cluster.NewHandler(permuted(addrs, orders[(bi+1)%len(orders)]), "r")
+		if err != nil {
+			t.Fatal(err)
+		}
+		for _, k := range acked {
+			res, _ := execHandler(hr, wire.Cmd{Kind: wire.Get, Keys: []string{k}}, 0)
+			if res.Err != nil || res.Hits[0] == nil || string(res.Hits[0].Value) != "v-"+k {
+				p := rec.Violation("TestC19EndToEnd", map[string]interface{}{"nodes": addrs, "node_refusing_stores": addrs[bi%len(fakes)], "status": status, "key": k})
+				t.Fatalf("C19 end to end: while node %s answered every store with status %#x, the set of key %q was acknowledged; another connection does not find the key: %+v (nodes %v, %d sets refused, %d acknowledged); replay %s", addrs[bi%len(fakes)], status, k, res, addrs, refused, len(acked), p)
+			}
+		}
+		hr.Close()
+		rec.Case(refused > 0 && len(acked) > 0, fmt.Sprintf("e2e-busy|%d|%#x|%d", bi, status, refused), "end-to-end-node-refusing-stores")
+	}
 	// A connection set up while one node cannot be reached: either there is no
 	// handler (the client connection is refused, which is what the code does), or
 	// the handler routes as every other connection does -- a key that was stored
